@@ -715,6 +715,46 @@ impl E2 {
                     }
                 )
             }
+            // C14: the live tables of the running store — id and every entry `user key @ sequence number = value`
+            // (`!` = tombstone, `p` = a value-log pointer) — and the visible sequence number (read-only facade dumps)
+            ["tabledump"] => {
+                let d = match self.with_tree(|t| surrealkv::verif::vlogptr::vlog_state(t)) {
+                    Some(Ok(d)) => d,
+                    Some(Err(e)) => return format!("err:{}", e.replace(' ', "_")),
+                    None => return "err:closed".into(),
+                };
+                let vis = self.with_tree(|t| fe::visible_seq(t)).unwrap();
+                let tables: Vec<String> = d
+                    .tables
+                    .iter()
+                    .map(|t| {
+                        let mut es: Vec<String> = t
+                            .entries
+                            .iter()
+                            .map(|(k, s)| {
+                                let n = k.len() - 16;
+                                let mut tr = [0u8; 8];
+                                tr.copy_from_slice(&k[n..n + 8]);
+                                let trailer = u64::from_be_bytes(tr);
+                                let kind = trailer & 0xff;
+                                let v = if kind == 0 || kind == 1 {
+                                    "!".to_string()
+                                } else {
+                                    let sh = crate::vp::show_stored(s, false);
+                                    match sh.strip_prefix("i:") {
+                                        Some(x) => x.to_string(),
+                                        None => if sh.starts_with("p:") { "p".to_string() } else { format!("?{}", sh) },
+                                    }
+                                };
+                                format!("{}@{}={}", bytes_to_hex(&k[..n]), trailer >> 8, v)
+                            })
+                            .collect();
+                        es.sort();
+                        format!("{}[{}]", t.id, es.join(","))
+                    })
+                    .collect();
+                format!("tabs:vis={};tables={}", vis, tables.join("|"))
+            }
             // C11: a history cursor that STAYS OPEN (driven by `cur <cid> first|next|..`, closed by `curclose`): it keeps
             // the table set it was opened on
             ["histopen", id, cid, lo, hi, tomb] => {
